@@ -350,6 +350,7 @@ Definition rstep (s : rstate) (tid : nat) : rres :=
           | ICellRead u => done1 s tid t (RVal (ro_val (robj_get s u)))
           | ICellWrite u =>
               done1 (set_obj s u (ro_with_val (robj_get s u) (N.of_nat (tid * 100 + r_pc t + 1)))) tid t RUnit
+          | ICellNested u k => if Nat.eqb k 3 then done1 s tid t (RVal (ro_val (robj_get s u))) else RPanic
           | IYield => done1 s tid t RUnit
           | IAwait a v _ =>
               (* a blocking read: every unsuccessful poll is recorded by the
